@@ -221,7 +221,12 @@ def run(ctx):
         'tokenize / ast positions are the oracle; the recorder (harness/c06_locs.py) pairs CPython\'s parse of the text '
         'with the live tree and supplies children in grammar order (re-checked by clause OrderOracle) and witness token '
         'indices (re-checked by clause OracleTokenBoundary)',
-        'f-string internals excluded (JoinedStr is a leaf; rectangles overlapping an f-string are not judged)',
+        'f-string internals are judged like every other node (CPython 3.12 positions + FSTRING_* tokens); two named '
+        'domain predicates of the spec, both computed from CPython positions: LocLaws!DebugText (the text Constant of a '
+        'self-documenting field `{x = }` is positioned inside the field it precedes: exempt from sibling order, ends at '
+        'the token after `=`) and LocTrace!DebugFieldFree (find_* rectangles that cut into such a pair are not judged); '
+        'literal parts are delimited by the structural tokens around them (LocLaws!FStrPart), not by FSTRING_MIDDLE '
+        'tokens, which drop the doubled brace of `{{` / `}}`',
         'empty rectangles and zero-length nodes on a rectangle end: find_contains_loc / find_loc only required to return '
         'some containing / inside / exact node (docstrings do not determine more; LocFindMC shows the ties)',
         'FSTView.loc is not covered',
